@@ -11,7 +11,7 @@ RULE = ("cases = operand tuples / (array, mask pattern) / (array, window vector)
 ASSUMPTIONS = ["oracle: list concatenation, list comprehension over mask cells in row-major order, Python slicing r[s:e]",
                "cells hold distinct integers so order and identity of cells are visible", "values and row structure only (no dtypes)"]
 REQUIRED_FEATURES = ["zero_row_operand", "empty_row", "concat_axis1", "mask_all_false", "mask_all_true", "negative_end",
-                     "empty_window", "input_1d", "input_2d", "npsarray", "padded_left"]
+                     "empty_window", "input_1d", "input_2d", "npsarray", "padded_left", "mixed_dtypes"]
 BOUNDS = {"quick": "LV(3,3) (concatenate partners / windows of three-row arrays restricted to LV(3,2) resp. LV(2,3)): all ordered pairs for concatenate axis 0 / axis -1; *_like; padding both sides x 2 fill values; every boolean "
                    "mask pattern over the cells for nonzero / where / subset / mask indexing; every vector of per-row windows 0<=s<=e<=len "
                    "and negative ends for ragged_slice on ragged, 2-D and 1-D (<=2 windows, n<=4) inputs and NPSArray[starts:ends]",
@@ -102,9 +102,24 @@ def check(case, acc):
                 acc.feature("empty_row")
         if any(sum(l) for l in ls):
             acc.nontrivial()
+        # mixed element types: the joined cells keep their values (numpy promotes; nothing is cast to the first operand's type)
+        mixed = [(np.int64, 0), (np.float64, 0.5), (np.uint8, 0)] if len(ops) <= 3 else []
+        if mixed and any(sum(l) for l in ls):
+            acc.feature("mixed_dtypes")
+            mops = [[[x + mixed[i % 3][1] for x in r] for r in o] for i, o in enumerate(ops)]
+            mk = lambda: [_ra(o, mixed[i % 3][0]) for i, o in enumerate(mops)]
+            if kind == "concat0":
+                _cmp(acc, "concatenate(axis=0, mixed dtypes)", R([r for o in mops for r in o]), observe(lambda: np.concatenate(mk())))
+            else:
+                _cmp(acc, "concatenate(axis=-1, mixed dtypes)", R([sum(rs, []) for rs in zip(*mops)]), observe(lambda: np.concatenate(mk(), axis=-1)))
+                _cmp(acc, "concatenate(axis=-1, mixed dtypes, reversed)", R([sum(rs, []) for rs in zip(*mops[::-1])]),
+                     observe(lambda: np.concatenate(mk()[::-1], axis=-1)))
         if kind == "concat0":
             exp = R([r for o in ops for r in o])
-            _cmp(acc, "concatenate(axis=0)", exp, observe(lambda: np.concatenate([_ra(o) for o in ops])))
+            held = [_ra(o) for o in ops]
+            _cmp(acc, "concatenate(axis=0)", exp, observe(lambda: np.concatenate(held)))
+            for o, h in zip(ops, held):
+                _cmp(acc, "operand after concatenate", R(o), observe(lambda: h))
         else:
             acc.feature("concat_axis1")
             exp = R([sum(rs, []) for rs in zip(*ops)])
@@ -137,7 +152,12 @@ def check(case, acc):
         if side == "left":
             acc.feature("padded_left")
         exp = A([(r + [fill] * (m - len(r))) if side == "right" else ([fill] * (m - len(r)) + r) for r in rows], shape=(len(la), m))
-        _cmp(acc, f"as_padded_matrix({side})", exp, observe(lambda: _ra(rows).as_padded_matrix(fill_value=fill, side=side)))
+        x = _ra(rows)
+        twin = x + 0                       # shares its geometry with x
+        _cmp(acc, f"as_padded_matrix({side})", exp, observe(lambda: x.as_padded_matrix(fill_value=fill, side=side)))
+        _cmp(acc, f"as_padded_matrix({side}) again", exp, observe(lambda: x.as_padded_matrix(fill_value=fill, side=side)))
+        _cmp(acc, "operand after padding", R(rows), observe(lambda: x))
+        _cmp(acc, "array sharing the operand's geometry after padding", R(rows), observe(lambda: twin))
     elif kind == "mask":
         bits = case[2]
         it = iter(bits)
@@ -147,6 +167,7 @@ def check(case, acc):
         if bits and all(bits):
             acc.feature("mask_all_true")
         mk = lambda: _ra(mrows, bool)
+        held_x, held_m = _ra(rows), _ra(mrows, bool)
         nz = ([i for i, r in enumerate(mrows) for j, b in enumerate(r) if b], [j for i, r in enumerate(mrows) for j, b in enumerate(r) if b])
         exp_nz = ("T", (A(nz[0], shape=(len(nz[0]),)), A(nz[1], shape=(len(nz[1]),))))
         _cmp(acc, "np.nonzero", exp_nz, observe(lambda: np.nonzero(mk())))
@@ -160,6 +181,11 @@ def check(case, acc):
         _cmp(acc, "subset(mask)", R(exps), observe(lambda: _ra(rows).subset(mk())))
         flat = [a for r in exps for a in r]
         _cmp(acc, "ra[mask]", A(flat, shape=(len(flat),)), observe(lambda: _ra(rows)[mk()]))
+        # one pair of objects through the whole sequence of functions, then unchanged
+        seq = observe(lambda: (np.nonzero(held_m), np.where(held_m, held_x, -5), held_x.subset(held_m), held_x[held_m], held_m.nonzero())[2])
+        _cmp(acc, "subset after a sequence of calls on the same objects", R(exps), seq)
+        _cmp(acc, "operand after the sequence", R(rows), observe(lambda: held_x))
+        _cmp(acc, "mask after the sequence", R(mrows), observe(lambda: held_m))
     elif kind in ("rslice", "rslice2d"):
         from npstructures import ragged_slice
         combo = case[2]
